@@ -27,6 +27,13 @@ DEP_INDEXING = {
     "get_source_contents": (("SourceMapBuilder",), 1, ("add_source",)),
 }
 
+# dependency APIs with a flag that switches on a code path of the dependency that panics for some inputs:
+# name -> (path fragments, index of the flag (receiver = 0), the value that keeps it off, why)
+DEP_FLAGS = {
+    "add_raw": (("SourceMapBuilder",), 7, False, "sourcemap 8.0.1 encodes range mappings through a per-line bit buffer of 16 bits per range token that it indexes with the token's position in the line: a range token beyond the 16th token of a generated line panics in SourceMap::to_writer"),
+    "add": (("SourceMapBuilder",), 7, False, "same encoder as add_raw"),
+}
+
 # reviewed obligations: (function name, callee name, receiver description) -> reason
 REVIEWED = {
     ("chain_source_maps", "unwrap", "call:from_utf8"): "the bytes were just written by sourcemap's JSON writer (serde_json): always valid UTF-8",
@@ -254,6 +261,8 @@ def rule_panic(check):
                     kind = "index-call"
                 elif name in DEP_INDEXING and any(w in path + ((n.get("callee") or {}).get("resolved") or "") for w in DEP_INDEXING[name][0]):
                     kind = "dep-index"
+                elif name in DEP_FLAGS and any(w in path + ((n.get("callee") or {}).get("resolved") or "") for w in DEP_FLAGS[name][0]):
+                    kind = "dep-flag"
             elif n.get("k") == "Index":
                 kind = "index"
             elif n.get("k") == "Binary" and n["op"] in ("Div", "Rem") and not n.get("callee"):
@@ -276,6 +285,15 @@ def rule_panic(check):
                 os_ = pv.origins(f, a_[spec[1]]) if len(a_) > spec[1] else set()
                 if os_ and all(r_[0] == "call" and r_[1].split("::")[-1] in spec[2] for r_, _p in os_):
                     reason = "G14: the id was handed out by %s of the same builder" % "/".join(spec[2])
+            elif kind == "dep-flag":
+                spec = DEP_FLAGS[name]
+                a_ = hir.call_args(n)
+                os_ = pv.origins(f, a_[spec[1]]) if len(a_) > spec[1] else set()
+                if os_ and all(r_[0] == "lit" and r_[1] in (spec[2], str(spec[2]).lower()) and not _p for r_, _p in os_):
+                    reason = "G15: the range flag is the constant false (%s)" % spec[3][:60]
+                else:
+                    check.bad(R, key, hir.loc(n), "%s is called with a range flag that is not the constant `false`: %s" % (name, spec[3]))
+                    continue
             if reason:
                 check.ok(R, key, hir.loc(n), "%s -- %s" % (rdesc, reason))
             else:
